@@ -327,7 +327,16 @@ def handle (j : Json) : Json :=
   let a := opOfJson (jget j "a")
   let fault := pcOfInt (jint (jget j "fault_pc"))
   let listOk := jbool (jget j "list_ok")
-  if kind == "hist" then
+  if kind == "three" then
+    -- the fixed three-thread schedule of Eru.Props.C22.counterexample_two_removenode_vs_addnode
+    let y := runSched ⟨pre, [{ op := a }, { op := .removeNode "n1" }, { op := .removeNode "n1" }]⟩
+      [2, 1, 1, 1, 1, 1, 1, 0, 0, 2, 2, 2, 2, 2, 0]
+    let oks := (jarr (jget j "oks")).map jbool
+    let agree := (canon y.s).compress == (canon impl).compress && y.ts.map (·.ok) == oks && quiescent y
+    let viol := (refViolations impl).map (fun v => "C22:two-removenode-vs-addnode:" ++ v) ++
+      (if listOk then [] else ["C22:two-removenode-vs-addnode:list-workloads-fails"])
+    verdict id agree (Json.mkObj [("state", canon y.s)]) viol "three:addNode|removeNode|removeNode" false
+  else if kind == "hist" then
     -- sequential history: the model runs every operation alone; state, result and RefInv after EVERY operation
     let ops := (jarr (jget j "ops")).map opOfJson
     let states := (jarr (jget j "states")).map rstOfJson
